@@ -435,6 +435,7 @@ class Gen:
         end = self.lineno() - 1
         self.meta['fns'].append({
             'id': oid, 'anchor': anchor, 'src_mod': it.mod, 'sha': it.sha(), 'rules': fired,
+            'closures': count_closures(strip_docs(it.text) if slice_text is None else slice_text),
             'lines': [start, end], 'module': '::'.join(self.cur_mod_stack),
             'mode': 'assumed' if 'external_body' in flags else ('decl' if ('decl' in flags or body is None) else 'verified'),
         })
@@ -633,6 +634,22 @@ class Gen:
             i += 1
 
 
+def count_closures(text):
+    """number of closure expressions in a function's source text (`|args| body`, `move |args| body`, `|| body`)"""
+    t = re.sub(r'//[^\n]*', '', text)
+    t = re.sub(r'"(?:[^"\\]|\\.)*"', '""', t)
+    n = 0
+    for m in re.finditer(r'(?:(?<=[(,=\s])|^)(?:move\s+)?\|((?:[^|\n]{0,120}))\|', t):
+        inner = m.group(1)
+        before = t[max(0, m.start() - 2):m.start()]
+        # skip the binary/boolean operators `a | b`, `a || b` : a closure's parameter list follows `(`, `,`, `=` or whitespace
+        # after one of those, and never has an operand directly in front of it
+        if re.search(r'[\w)\]]\s*$', t[max(0, m.start() - 3):m.start()]) and not re.search(r'(?:[(,=]|\bmove)\s*$', t[max(0, m.start() - 8):m.start()]):
+            continue
+        n += 1
+    return n
+
+
 def generate(expanded_path, templates, out_rs, out_meta, flags=(), extra_sources=None, extra=None, tag=None, degrade=None):
     src = Source(open(expanded_path).read())
     g = Gen(src, {'flags': list(flags)})
@@ -691,6 +708,17 @@ def generate(expanded_path, templates, out_rs, out_meta, flags=(), extra_sources
             continue
         items[key] = sorted(set(ch.name for ch in c.children if ch.kind == 'fn'))
     g.meta['impl_items'] = items
+    cl_p = os.path.join(os.path.dirname(os.path.dirname(os.path.abspath(__file__))), 'verus', 'fn_closures.baseline.json')
+    if os.environ.get('PSC_WRITE_IMPL_BASELINE'):
+        oldc = json.load(open(cl_p)) if os.path.exists(cl_p) else {}
+        for f in g.meta['fns']:
+            if not f['anchor'].startswith('@') and 'closures' in f:
+                oldc[f['id']] = max(oldc.get(f['id'], 0), f['closures'])
+        with open(cl_p, 'w') as fh:
+            json.dump(oldc, fh, indent=1, sort_keys=True)
+    if os.path.exists(cl_p):
+        basec = json.load(open(cl_p))
+        g.meta['new_closures'] = sorted(f['id'] for f in g.meta['fns'] if f.get('closures', 0) > basec.get(f['id'], f.get('closures', 0)))
     base_p = os.path.join(os.path.dirname(os.path.dirname(os.path.abspath(__file__))), 'verus', 'impl_items.baseline.json')
     if os.environ.get('PSC_WRITE_IMPL_BASELINE'):
         old = json.load(open(base_p)) if os.path.exists(base_p) else {}
